@@ -47,6 +47,7 @@ class Server:
         self.clock = clock  # unix seconds (float)
         self.log: list[tuple] = []
         self.record = False
+        self.zadd_times: dict[tuple, float] = {}  # (key, member) -> server time of the last ZADD (harness observation)
 
     # -- helpers
     def _touch(self, key: str) -> None:
@@ -232,6 +233,7 @@ class Server:
             m = _b(m)
             n += m not in z
             z[m] = float(s)
+            self.zadd_times[(_k(name), m)] = self.clock()
         self._touch(_k(name))
         return n
 
